@@ -1,6 +1,7 @@
 import LoguruModel.Emit.Lemmas
 import LoguruModel.Emit.NestedLemmas
 import LoguruModel.Emit.Threads
+import LoguruModel.Emit.Stderr
 /-
 C04 – a failing handler never breaks the caller, the other handlers, or itself.
 Only the property theorems and their non-vacuity examples live here.  Every statement is about
@@ -25,8 +26,10 @@ theorem shape_as_documented :
     Gen.printSkipsWhenNoStderr = true ∧ Gen.printGuardsRecordStr = true ∧
     (∀ e, Gen.printSwallows e = true ↔ e = .osError) ∧
     Gen.streamFlushAfterWrite = true ∧ Gen.taskCallbackRetrieves = true ∧ Gen.taskCallbackReraises = true ∧
-    Gen.markerPerThread = true ∧ (∀ e, Gen.asyncScheduleSwallows e = false) := by
-  refine ⟨rfl, ?_, ?_, rfl, rfl, rfl, rfl, rfl, rfl, rfl, rfl, rfl, ?_, rfl, rfl, rfl, rfl, ?_⟩
+    Gen.markerPerThread = true ∧ (∀ e, Gen.asyncScheduleSwallows e = false) ∧
+    Gen.stopUsesProtectedLock = true ∧ Gen.tasksUseProtectedLock = true ∧
+    Gen.printResolvesStderrPerCall = true := by
+  refine ⟨rfl, ?_, ?_, rfl, rfl, rfl, rfl, rfl, rfl, rfl, rfl, rfl, ?_, rfl, rfl, rfl, rfl, ?_, rfl, rfl, rfl⟩
   · intro e; cases e <;> rfl
   · intro e; cases e <;> rfl
   · intro e; cases e <;> simp [Gen.printSwallows]
@@ -260,15 +263,15 @@ theorem nested_log_keeps_all_usable (env : Env) (n i : Nat) (reg : Reg) (hg : Al
 /-- BRIDGE between the two model layers: when no handler's sink calls the logger for message `i`, the
     registry-level handler loop IS the handler-level one (so every theorem above about `logLoop`
     speaks about `loopN` too) … -/
-theorem layers_agree (env : Env) (n i : Nat) (reg : Reg) (hre : ∀ p ∈ reg, env.reenter i p.1.id = []) :
+theorem layers_agree (env : Env) (n i : Nat) (reg : Reg) (hre : ∀ p ∈ reg, env.reenter i p.1.id = []) (hpub : ∀ p ∈ reg, p.2.published = true) :
     loopN env n i reg = ⟨(logLoop env n i reg).reg, (logLoop env n i reg).ev, (logLoop env n i reg).res⟩ :=
-  loopN_eq_logLoop env n i reg hre
+  loopN_eq_logLoop env n i reg hre hpub
 
 /-- … in particular it refines the specification's loop -/
 theorem nested_log_refines_spec (env : Env) (n i : Nat) (reg : Reg) (hq : AllQuiet reg)
-    (hre : ∀ p ∈ reg, env.reenter i p.1.id = []) :
+    (hre : ∀ p ∈ reg, env.reenter i p.1.id = []) (hpub : ∀ p ∈ reg, p.2.published = true) :
     loopN env n i reg = ⟨(specLoop env i reg).reg, (specLoop env i reg).ev, (specLoop env i reg).res⟩ := by
-  rw [layers_agree env n i reg hre, log_loop_characterised env n i reg hq hre]
+  rw [layers_agree env n i reg hre hpub, log_loop_characterised env n i reg hq hre]
 
 /-- the history theorem with registry-level re-entrancy: for every set of added handlers, every history
     and every fault oracle (stderr tame) no operation blocks and all registered handlers stay in
@@ -314,6 +317,75 @@ theorem shared_marker_deadlocks_witness :
     (Threads.run false [(0, .enter), (0, .acquire), (1, .enter), (0, .reenter)] Threads.init).pc 0 = .stuck := by
   decide
 
+/-! ### using the logger from inside a sink through `remove()` / `complete()` (not only logging calls) -/
+
+/-- `logger.remove(<own id>)` from inside the handler's own sink reaches `Handler.stop()` with the marker set:
+    refused with RuntimeError, nothing touched, not blocked (`Gen.stopUsesProtectedLock`) -/
+theorem remove_from_own_sink_detected (env : Env) (c : Cfg) (k : Nat) (s : HState) (hm : s.marker = true) :
+    stopH env c k s = ⟨s, [], .raised .runtimeError⟩ :=
+  stopH_marker env c k s hm
+
+/-- `logger.complete()` from inside a (non-enqueue) handler's own sink reaches `tasks_to_complete()` with the
+    marker set: refused with RuntimeError (`Gen.tasksUseProtectedLock`) -/
+theorem complete_from_own_sink_detected (s : HState) (hm : s.marker = true) :
+    tasksLocked s = ⟨s, [], .raised .runtimeError⟩ :=
+  tasksLocked_marker s hm
+
+/-- … whereas the bare `with self._lock:` in their place waits for a lock its own thread holds: the refuting
+    witness for that shape (seed C04-g) -/
+theorem bare_lock_from_own_sink_blocks_witness (body : Step) (s : HState) (hl : s.lockHeld = true) :
+    (plainLock body s).res = .blocked := by
+  simp [plainLock, hl]
+
+/-- every way the sink's use of the logger reaches its own handler (logging, remove, complete), nested to any
+    depth, leaves the busy handler untouched and does not block -/
+theorem every_inner_use_refused (env : Env) (c : Cfg) (n : Nat) : InnerOk (innerD env c n) :=
+  emitD_innerOk env c n
+
+/-- registry level: a sink that removes its own handler – the handler is unpublished FIRST (so it is gone
+    afterwards, as for any `remove` whose `stop()` raises), then refused with RuntimeError; nothing else moves -/
+theorem nested_remove_self_detected (env : Env) (k kk : Nat) (c : Cfg) (reg : Reg) (s : HState)
+    (hk : reg[k]? = some (c, s)) (hm : s.marker = true) (hp : s.published = true) :
+    removeSelfAt env k kk c reg =
+      ⟨reg.set k (c, { s with published := false }), [], .raised .runtimeError⟩ := by
+  simp [removeSelfAt, hk, hp, stopH_marker env c kk { s with published := false } hm]
+
+/-! ### `sys.stderr` changing during the life of a handler (`Emit/Stderr.lean`) -/
+
+/-- FOR EVERY stderr history: a report goes to the stream that IS `sys.stderr` at that moment, whenever the
+    handler first reported (`Gen.printResolvesStderrPerCall`) … -/
+theorem report_goes_to_current_stderr (h : Stderr.Hist) (first t : Nat) :
+    (Stderr.printAt Gen.printResolvesStderrPerCall h first t).stream = h.cur t := by
+  have hp : Gen.printResolvesStderrPerCall = true := rfl
+  simp only [Stderr.printAt, Stderr.target, hp, if_true]
+  split <;> rfl
+
+/-- … and what happens depends on the condition of THAT stream only: if it is usable or fails with OSError,
+    nothing escapes – whatever became of the streams that were stderr earlier (closed files …) -/
+theorem report_never_escapes_if_current_stderr_tame (h : Stderr.Hist) (first t : Nat)
+    (ht : ∀ e, h.cond (h.cur t) t = .fails e → e = .osError) :
+    (Stderr.printAt Gen.printResolvesStderrPerCall h first t).escapes = none := by
+  have hp : Gen.printResolvesStderrPerCall = true := rfl
+  simp only [Stderr.printAt, Stderr.target, hp, if_true]
+  split
+  · rfl
+  · rfl
+  · rename_i e he
+    have := ht e he
+    subst this
+    simp [Gen.printSwallows]
+
+/-- refuting witness for a handler that keeps the stream of its first report (seed C04-f): stderr is stream 0 at
+    time 0 and stream 1 (healthy) from time 1 on, stream 0 is closed at time 1 – the second report is written to
+    stream 0, not to stderr, and the closed file's ValueError escapes -/
+theorem memoised_stderr_witness :
+    let h : Stderr.Hist := { cur := fun t => if t = 0 then 0 else 1,
+                             cond := fun x t => if x = 0 ∧ t ≥ 1 then .fails .valueError else .ok }
+    (Stderr.printAt false h 0 1).stream = 0 ∧ h.cur 1 = 1 ∧
+    (Stderr.printAt false h 0 1).escapes = some .valueError ∧
+    (Stderr.printAt true h 0 1) = ⟨1, true, none⟩ := by
+  decide
+
 /-! ### non-vacuity: concrete environments meeting the hypotheses, evaluated by the kernel -/
 
 /-- handler 1's `format_map` raises KeyError for message 0; handler 2's stream fails to flush -/
@@ -323,7 +395,7 @@ def exEnv : Env :=
       if i = 0 ∧ h = 1 ∧ st = .formatMap then some .keyError
       else if i = 0 ∧ h = 2 ∧ st = .flush then some .osError else none,
     accept := fun _ _ => true, stderr := fun _ _ => .ok, strFails := fun _ => false,
-    reenter := fun i h => if i = 5 ∧ h = 1 then [6, 7] else [], loop := fun _ => true }
+    reenter := fun i h => if i = 5 ∧ h = 1 then [.log 6, .log 7] else if i = 8 ∧ h = 1 then [.removeSelf 0] else [], loop := fun _ => true }
 
 def exReg : Reg :=
   [({ id := 0 }, {}), ({ id := 1 }, {}), ({ id := 2, kind := .streamFlush }, {})]
@@ -366,5 +438,12 @@ example : (loopN exEnv 2 5 exReg).reg.map (fun p => p.2.sink) = [[5, 6, 7], [5],
     (loopN exEnv 2 5 exReg).ev =
       [.report 1 (some 6) .runtimeError false .emit, .report 1 (some 7) .runtimeError false .emit] ∧
     (loopN exEnv 2 5 exReg).res = .ok := by decide
+
+/-- a one-shot sink: message 8 makes handler 1's sink call `logger.remove(1)` – RuntimeError reported, message 8
+    not written by it, the handler is unpublished, the others have the message -/
+example : (loopN exEnv 2 8 exReg).reg.map (fun p => (p.2.sink, p.2.published)) =
+      [([8], true), ([], false), ([8], true)] ∧
+    (loopN exEnv 2 8 exReg).ev = [.report 1 (some 8) .runtimeError false .emit] ∧
+    (loopN exEnv 2 8 exReg).res = .ok := by decide
 
 end C04
